@@ -798,7 +798,7 @@ def run_stats(ctx, pend, a, dtype, karr, names, chunks=None, koracle=None):
     pend.append(('stats %d %s %s %s' % (len(want), ' '.join(want), grid_line(D), grid_line(K)), layers, case, what))
 
 
-def run_mean(ctx, pend, a, dtype, passes, excludes, chunks=None, raw_excludes=None, raw_passes=None):
+def run_mean(ctx, pend, a, dtype, passes, excludes, chunks=None, raw_excludes=None, raw_passes=None, mode=None):
     focal, conv, funcs = _impl()
     rows = to_rows(a)
     case = dict(fn='mean', passes=passes, excludes=list(excludes), data=rows, dtype=dtype)
@@ -824,7 +824,18 @@ def run_mean(ctx, pend, a, dtype, passes, excludes, chunks=None, raw_excludes=No
         return
     D = exact_grid(rows)
     E = [fr(e) for e in excludes]
-    mode = 'f64' if passes <= 1 else 'f64tol'
+    mode = mode or ('f64' if passes <= 1 else 'f64tol')
+    # the clause of the property, stated directly: a cell whose value is in `excludes` (compared exactly, as rationals; NaN matches
+    # NaN) is passed through UNTOUCHED — bit for bit, after any number of passes
+    for y, row in enumerate(D):
+        for x, c in enumerate(row):
+            if any((c is None and e is None) or (c is not None and e is not None and c == e) for e in E):
+                g = out[y][x]
+                if not (isnan(g) if c is None else (not isnan(g) and Fraction(g) == c)):
+                    ctx.violation('oracle', '%s: cell (%d,%d) holds the excluded value %r but came out as %r (excluded values must be '
+                                  'passed through untouched)' % (what, y, x, rows[y][x], g),
+                                  dict(case, cell=[y, x], got=g, expected=rows[y][x]))
+                    return
     check_grid(ctx, out, oracle_mean(D, passes, E), mode, case, what)
     if passes <= 3:
         # the exact model keeps unreduced fractions (denominators grow as d^9 per pass): more passes go to the oracle here and
@@ -1345,6 +1356,7 @@ def run(ctx):
     run_float_stream(ctx)
     run_theme_stream(ctx)
     run_kernel_stream(ctx)
+    run_excludes_stream(ctx)
 
 
 # ---------------------------------------------------------------------------------------------
@@ -1953,6 +1965,47 @@ def run_kernel_stream(ctx):
                                   dict(fn='kernel-reuse', op=op, backend=backend, kernel_kind=kind, kernel=k0.tolist(), sequence=ops))
                 k = np.array(k0, copy=True).astype(k0.dtype)          # go on with a fresh object so that later findings are independent
                 snap = (k.tobytes(), k.dtype, k.shape, k.strides, k.flags.writeable)
+    compare_model(ctx, pend)
+
+
+# ---------------------------------------------------------------------------------------------
+# EXCLUDES stream (appended last): float64 rasters whose no-data values are NOT float32-representable
+# (-9999.9, 0.1, 1e20, 2^24+1), excluded through a list / tuple / float64 array / float32 array (the effective value of
+# the last form is the float32 one); the oracle demands that excluded cells pass through untouched
+# ---------------------------------------------------------------------------------------------
+def run_excludes_stream(ctx):
+    rng = ctx.rng
+    q = ctx.quick()
+    pend = []
+    special = [-9999.9, 0.1, 1e20, 16777217.0]
+    n = 0
+    for rep_ in range(1 if q else 8):
+        for form in ('list', 'tuple', 'float64-array', 'float32-array'):
+            for passes in ((1, 2, 0, 3) if not q else ((1, 3) if form != 'tuple' else (2, 0))):
+                n += 1
+                rows, cols = rng.randint(3, 6), rng.randint(3, 7)
+                picks = rng.sample(special, rng.randint(1, 3))
+                cells = []
+                for _ in range(rows * cols):
+                    u = rng.random()
+                    cells.append(rng.choice(picks) if u < 0.3 else (NAN if u < 0.4 else float(rng.randint(-20, 40))))
+                cells[rng.randrange(rows * cols)] = picks[0]
+                a = np.array(cells, dtype='float64').reshape(rows, cols)
+                ex = list(picks)
+                if n % 2:
+                    ex.insert(rng.randrange(len(ex) + 1), NAN)
+                if form == 'list':
+                    raw, logical = list(ex), ex
+                elif form == 'tuple':
+                    raw, logical = tuple(ex), ex
+                elif form == 'float64-array':
+                    raw, logical = np.array(ex, dtype='float64'), ex
+                else:
+                    raw = np.array(ex, dtype='float32')
+                    logical = [float(v) for v in raw.tolist()]          # what a float32 array can hold
+                ctx.count('excludes-not-float32/%s/passes=%d' % (form, passes))
+                run_mean(ctx, pend, a, 'float64', passes, logical, raw_excludes=raw, mode='f64tol',
+                         chunks=gen_chunks(rng, rows, cols, 'blocks') if n % 5 == 0 else None)
     compare_model(ctx, pend)
 
 
